@@ -110,15 +110,15 @@ Qed.
 
 (* `with open(tmp, 'w') as f: write(f)` from a state without an open file: the target is not touched, the
    file is closed, and without an exception the temporary file holds the complete output *)
-Lemma open_write_spec : forall f chunks sched fl, writes_to_temp = true -> fl <> AtOpen ->
-  forall st raised, exec (POpen PWrite) chunks sched fl (init f) = (st, raised) ->
+Lemma open_write_spec : forall f chunks sched fl e, writes_to_temp = true -> fl <> AtOpen ->
+  forall st raised, exec (POpen PWrite) chunks sched fl e (init f) = (st, raised) ->
   hnd st = None /\ target (disk st) = target f /\
   (exists c, temp (disk st) = Some c /\ (raised = false -> c = complete chunks)) /\
   (raised = false -> fl <> AtClose /\ ok_before fl (n_events chunks sched)) /\
   (raised = true -> fl = AtClose \/ fired fl (n_events chunks sched)).
 Proof.
-  intros f chunks sched fl Hw Hno st raised E.
-  assert (E' : (let '(st1, r1) := exec PWrite chunks sched fl (open_file (init f)) in
+  intros f chunks sched fl e Hw Hno st raised E.
+  assert (E' : (let '(st1, r1) := exec PWrite chunks sched fl e (open_file (init f)) in
                 let '(st2, r2) := close fl st1 in (st2, (r1 || r2)%bool)) = (st, raised)).
   { destruct fl; try exact E. exfalso. apply Hno. reflexivity. }
   clear E. unfold open_file in E'. rewrite Hw in E'. cbn [exec init disk hnd ev] in E'.
@@ -174,37 +174,38 @@ Lemma fl_is_open : forall fl, fl = AtOpen \/ fl <> AtOpen.
 Proof. intro fl. destruct fl; (left; reflexivity) || (right; discriminate). Qed.
 
 (* The exporters' protocol, as translated from the source. *)
-Lemma protocol_is : protocol = PTry (PSeq (POpen PWrite) PReplace) PRemoveTmp /\ writes_to_temp = true.
-Proof. split; reflexivity. Qed.
+Lemma protocol_is : protocol = PTry (PSeq (POpen PWrite) PReplace) PRemoveTmp /\ writes_to_temp = true /\ temp_same_dir = true.
+Proof. repeat split; reflexivity. Qed.
 
 (* all-or-nothing: whatever the buffering and the failure point, afterwards the target is either complete or
    exactly what it was before (absent if it was absent), and no temporary file remains *)
-Theorem export_atomic : forall f chunks sched fl, temp f = None ->
-  let '(f', raised) := export f chunks sched fl in
+Theorem export_atomic : forall xd f chunks sched fl, temp f = None ->
+  let '(f', raised) := export xd f chunks sched fl in
   temp f' = None /\
   (if raised then target f' = target f else target f' = Some (complete chunks)) /\
   (raised = false <-> fl = NoFailure \/ (exists e p q, fl = AtFlush e p q /\ n_events chunks sched <= e)).
 Proof.
-  intros f chunks sched fl Ht. destruct protocol_is as [P1 P2].
-  unfold export, run. rewrite P1.
-  assert (Hx : forall st, exec (PTry (PSeq (POpen PWrite) PReplace) PRemoveTmp) chunks sched fl st =
-    let '(st1, raised) := (let '(sta, ra) := exec (POpen PWrite) chunks sched fl st in
-                           if ra then (sta, true) else exec PReplace chunks sched fl sta) in
-    if raised then (fst (exec PRemoveTmp chunks sched fl st1), true) else (st1, false)) by reflexivity.
+  intros xd f chunks sched fl Ht. destruct protocol_is as [P1 [P2 P3]].
+  unfold export, run. rewrite P1, P3. set (en := {| xdev := xd; same_dir := true |}).
+  assert (Hcd : cross_device en = false) by (unfold cross_device, en; cbn [xdev same_dir negb]; apply andb_false_r).
+  assert (Hx : forall st, exec (PTry (PSeq (POpen PWrite) PReplace) PRemoveTmp) chunks sched fl en st =
+    let '(st1, raised) := (let '(sta, ra) := exec (POpen PWrite) chunks sched fl en st in
+                           if ra then (sta, true) else exec PReplace chunks sched fl en sta) in
+    if raised then (fst (exec PRemoveTmp chunks sched fl en st1), true) else (st1, false)) by reflexivity.
   rewrite Hx. clear Hx.
   destruct (fl_is_open fl) as [Ho|Ho].
   - (* open() fails *)
     subst fl. cbn. split; [reflexivity|]. split; [reflexivity|]. split; [discriminate|].
     intros [H|[e [p [q [H _]]]]]; discriminate.
-  - destruct (exec (POpen PWrite) chunks sched fl (init f)) as [st1 r1] eqn:E.
-    destruct (open_write_spec f chunks sched fl P2 Ho st1 r1 E) as [S1 [S2 [[c [S3 S4]] [S5 S6]]]].
+  - destruct (exec (POpen PWrite) chunks sched fl en (init f)) as [st1 r1] eqn:E.
+    destruct (open_write_spec f chunks sched fl en P2 Ho st1 r1 E) as [S1 [S2 [[c [S3 S4]] [S5 S6]]]].
     destruct r1.
     + (* the write block raised: the handler removes the temporary file *)
       cbn [fst exec disk target temp].
       split; [reflexivity|]. split; [assumption|]. split; [discriminate|].
       intros [H|[e [p [q [H Hle]]]]]; subst fl; destruct (S6 eq_refl) as [K|K]; try discriminate; cbn in K; try contradiction; lia.
     + destruct (S5 eq_refl) as [Hc Hb]. specialize (S4 eq_refl). subst c.
-      destruct fl as [| |e p q| |]; first [exfalso; apply Ho; reflexivity | exfalso; apply Hc; reflexivity | idtac]; cbn [exec]; rewrite ?S3; cbn [fst disk target temp].
+      destruct fl as [| |e p q| |]; first [exfalso; apply Ho; reflexivity | exfalso; apply Hc; reflexivity | idtac]; cbn [exec]; rewrite ?Hcd, ?S3; cbn [fst disk target temp].
       * split; [reflexivity|]. split; [reflexivity|]. split; [intros _; left; reflexivity | reflexivity].
       * split; [reflexivity|]. split; [reflexivity|]. split; [|reflexivity].
         intros _. right. exists e, p, q. split; [reflexivity | exact Hb].
@@ -213,40 +214,60 @@ Proof.
 Qed.
 
 (* a failed run from scratch followed by a later run without --overwrite regenerates the file *)
-Theorem rerun_regenerates : forall chunks sched fl chunks' sched',
+Theorem rerun_regenerates : forall xd chunks sched fl chunks' sched',
   let f0 := {| target := None; temp := None |} in
-  let '(f1, raised) := gen_file false f0 chunks sched fl in
+  let '(f1, raised) := gen_file xd false f0 chunks sched fl in
   raised = true ->
-  gen_file false f1 chunks' sched' NoFailure = ({| target := Some (complete chunks'); temp := None |}, false).
+  gen_file xd false f1 chunks' sched' NoFailure = ({| target := Some (complete chunks'); temp := None |}, false).
 Proof.
-  intros chunks sched fl chunks' sched'. cbv zeta. unfold gen_file at 1. cbn [target orb negb andb].
+  intros xd chunks sched fl chunks' sched'. cbv zeta. unfold gen_file at 1. cbn [target orb negb andb].
   rewrite andb_false_r. cbn [negb].
-  pose proof (export_atomic {| target := None; temp := None |} chunks sched fl eq_refl) as H.
-  destruct (export _ chunks sched fl) as [f1 raised]. destruct H as [Ht [Hg _]]. intro Hr. subst raised.
+  pose proof (export_atomic xd {| target := None; temp := None |} chunks sched fl eq_refl) as H.
+  destruct (export xd _ chunks sched fl) as [f1 raised]. destruct H as [Ht [Hg _]]. intro Hr. subst raised.
   cbn [target] in Hg. unfold gen_file. rewrite Hg. rewrite andb_false_r. cbn [negb orb].
-  pose proof (export_atomic f1 chunks' sched' NoFailure Ht) as H2.
-  destruct (export f1 chunks' sched' NoFailure) as [f2 r2]. destruct H2 as [Ht2 [Hg2 Hr2]].
+  pose proof (export_atomic xd f1 chunks' sched' NoFailure Ht) as H2.
+  destruct (export xd f1 chunks' sched' NoFailure) as [f2 r2]. destruct H2 as [Ht2 [Hg2 Hr2]].
   assert (r2 = false) by (apply Hr2; left; reflexivity). subst r2.
   destruct f2 as [tg tm]. cbn in *. subst. reflexivity.
 Qed.
 
 (* an existing complete file is never touched without --overwrite *)
-Lemma existing_kept c chunks sched fl : forall t, gen_file false {| target := Some c; temp := t |} chunks sched fl = ({| target := Some c; temp := t |}, false).
+Lemma existing_kept xd c chunks sched fl : forall t, gen_file xd false {| target := Some c; temp := t |} chunks sched fl = ({| target := Some c; temp := t |}, false).
 Proof. intro t. unfold gen_file. cbn. reflexivity. Qed.
 
 (* the same for a byte buffer of any capacity (the buffering of io.BufferedWriter) *)
-Corollary export_atomic_buffered : forall cap sizes f chunks fl, temp f = None ->
-  let '(f', raised) := export f chunks (sched_of_buffer cap sizes 0) fl in
+Corollary export_atomic_buffered : forall xd cap sizes f chunks fl, temp f = None ->
+  let '(f', raised) := export xd f chunks (sched_of_buffer cap sizes 0) fl in
   temp f' = None /\ (if raised then target f' = target f else target f' = Some (complete chunks)).
 Proof.
-  intros cap sizes f chunks fl Ht. pose proof (export_atomic f chunks (sched_of_buffer cap sizes 0) fl Ht) as H.
-  destruct (export f chunks (sched_of_buffer cap sizes 0) fl) as [f' raised]. destruct H as [H1 [H2 _]]. split; assumption.
+  intros xd cap sizes f chunks fl Ht. pose proof (export_atomic xd f chunks (sched_of_buffer cap sizes 0) fl Ht) as H.
+  destruct (export xd f chunks (sched_of_buffer cap sizes 0) fl) as [f' raised]. destruct H as [H1 [H2 _]]. split; assumption.
 Qed.
 
 (* why the order matters: the same statements with os.replace moved inside the `with open` block (before the
    close that flushes the buffer) are not atomic - a failure of the flush at close truncates the target *)
 Definition early_replace : prog := POpen (PTry (PSeq PWrite PReplace) PRemoveTmp).
-Lemma early_replace_not_atomic : writes_to_temp = true ->
-  run early_replace {| target := None; temp := None |} [0; 1; 2] [] (AtFlush 0 true false)
+Lemma early_replace_not_atomic : writes_to_temp = true -> forall xd,
+  run early_replace {| xdev := xd; same_dir := true |} {| target := None; temp := None |} [0; 1; 2] [] (AtFlush 0 true false)
   = ({| target := Some []; temp := None |}, true).
-Proof. intro Hw. unfold run, early_replace. cbn [exec]. unfold open_file. rewrite Hw. vm_compute. reflexivity. Qed.
+Proof. intros Hw xd. unfold run, early_replace. cbn [exec]. unfold open_file. rewrite Hw. destruct xd; vm_compute; reflexivity. Qed.
+
+(* why the place of the temporary file and the publication primitive matter: the same statements with the temporary
+   file in the system temporary folder and shutil.move.  When that folder is on another file system than the output
+   folder the rename fails and shutil.move copies: a failure of the copy's low-level write (event 1; event 0 is the
+   flush in close) leaves a truncated target.  On the same file system, or with the temporary file next to the
+   target, the same failure point is never reached and the file is published by the rename.  With os.replace and a
+   temporary file on another file system nothing is ever published. *)
+Definition moved : prog := PTry (PSeq (POpen PWrite) PMove) PRemoveTmp.
+Lemma move_across_devices_not_atomic : writes_to_temp = true ->
+  run moved {| xdev := true; same_dir := false |} {| target := None; temp := None |} [0; 1; 2] [] (AtFlush 1 true false)
+    = ({| target := Some []; temp := None |}, true) /\
+  run moved {| xdev := true; same_dir := false |} {| target := Some [Chunk 9]; temp := None |} [0; 1; 2] [] (AtFlush 1 true true)
+    = ({| target := Some [Chunk 0]; temp := None |}, true) /\
+  run moved {| xdev := false; same_dir := false |} {| target := None; temp := None |} [0; 1; 2] [] (AtFlush 1 true false)
+    = ({| target := Some (complete [0; 1; 2]); temp := None |}, false) /\
+  run moved {| xdev := true; same_dir := true |} {| target := None; temp := None |} [0; 1; 2] [] (AtFlush 1 true false)
+    = ({| target := Some (complete [0; 1; 2]); temp := None |}, false) /\
+  run (PTry (PSeq (POpen PWrite) PReplace) PRemoveTmp) {| xdev := true; same_dir := false |} {| target := None; temp := None |} [0; 1; 2] [] NoFailure
+    = ({| target := None; temp := None |}, true).
+Proof. intro Hw. unfold run, moved. cbn [exec]. unfold open_file. rewrite Hw. vm_compute. repeat split; reflexivity. Qed.
